@@ -75,7 +75,7 @@ func (s *Sess) ProtoMut(op, rel string, off int64, data []byte, written int, inj
 }
 
 // HangAfter is the watchdog period for one library call.
-var HangAfter = 60 * time.Second
+var HangAfter = 120 * time.Second
 
 // Tx wraps a transaction.
 type Tx struct {
